@@ -56,12 +56,13 @@ func VerifC08_StoreChunk_E() {
 
 // VerifC08_TwoWriters_E: two goroutines store the same chunk; the process dies at an arbitrary point.
 func VerifC08_TwoWriters_E() {
+	vPreempt(2) // writer A is interrupted by B and resumes while B is still runnable
 	base := vTempDir()
 	s, _ := NewLocalStore(base, StoreOptions{Uncompressed: true})
 	data := []byte{1, 2, 3}
 	c := NewChunk(data)
 	dir, p := s.nameFromID(c.ID())
-	k := vChoose("crash-before-mutation", 12)
+	k := vChoose("crash-before-mutation", 14)
 	short := vChoose("short-write", 3) - 1
 	vCrashAt(k, short, func() {
 		vCover("post-mortem")
